@@ -348,6 +348,76 @@ def seq_late_reply(rep, rng):
     rep.case(('seq-late-reply', k, victim), True, sample=replay)
 
 
+def seq_tag_history(rep, rng):
+    """consume / cancel / broker-cancel / deliver over a few client-named tags, re-used freely, on one channel: every
+    delivery handed out by process_data_events goes to the callback given to the *latest* consume() of its tag, and
+    only while the tag is listed (the earlier consumer with the same name is gone, its callback must not come back)"""
+    import amqpstorm
+    from amqpstorm.channel import Channel
+    from pamqp import specification as spec, header as pheader, body as pbody
+    conn = amqpstorm.Connection('localhost', 'guest', 'guest', lazy=True)
+    conn.set_state(3)
+    ch = Channel(1, conn, 2)
+    ch.set_state(3)
+    conn._channels[1] = ch
+
+    def write_frame(cid, fr):
+        if fr.name == 'Basic.Consume':
+            ch.on_frame(spec.Basic.ConsumeOk(consumer_tag=fr.consumer_tag))
+        elif fr.name == 'Basic.Cancel':
+            ch.on_frame(spec.Basic.CancelOk(consumer_tag=fr.consumer_tag))
+        elif fr.name == 'Basic.CancelOk':
+            pass
+    conn.write_frame = write_frame
+    names = ['a', 'b']
+    current = {}           # tag -> generation of the live consumer
+    gen = [0]
+    got = []
+    hist = []
+    replay = {'kind': 'seq-tag-history', 'history': hist}
+
+    def make_cb(tag, g):
+        return lambda m: got.append((tag, g, m.method['delivery_tag']))
+    dtag = 0
+    for _ in range(rng.randint(3, 10)):
+        tag = rng.choice(names)
+        op = rng.choice(['consume', 'cancel', 'broker-cancel', 'deliver', 'deliver'])
+        if op == 'consume' and tag not in current:
+            gen[0] += 1
+            ch.basic.consume(make_cb(tag, gen[0]), 'q', consumer_tag=tag)
+            current[tag] = gen[0]
+        elif op == 'cancel' and tag in current:
+            ch.basic.cancel(tag)
+            del current[tag]
+        elif op == 'broker-cancel' and tag in current:
+            ch.on_frame(spec.Basic.Cancel(consumer_tag=tag))
+            del current[tag]
+        elif op == 'deliver' and tag in current:
+            dtag += 1
+            ch.on_frame(spec.Basic.Deliver(consumer_tag=tag, delivery_tag=dtag, exchange='', routing_key='q'))
+            ch.on_frame(pheader.ContentHeader(body_size=1, properties=spec.Basic.Properties()))
+            ch.on_frame(pbody.ContentBody(b'x'))
+            del got[:]
+            ch.process_data_events()
+            want = [(tag, current[tag], dtag)]
+            hist.append((op, tag))
+            if got != want:
+                stale = [g for g in got if g[0] == tag and g[1] != current[tag]]
+                rep.violation('C14/delivery-dispatched-to-stale-callback' if stale else 'C14/delivery-not-dispatched',
+                              'after %r a delivery for consumer %r (its %s consume) was handed to %r' % (
+                                  hist, tag, 'generation-%d' % current[tag], got), replay)
+                break
+            continue
+        else:
+            continue
+        hist.append((op, tag))
+        if sorted(ch.consumer_tags) != sorted(current):
+            rep.violation('C14/tag-list', 'after %r the client lists %r, live consumers are %r' % (hist, sorted(ch.consumer_tags), sorted(current)), replay)
+            break
+    reuse = len([h for h in hist if h[0] == 'consume']) > len(set(h[1] for h in hist if h[0] == 'consume'))
+    rep.case(('seq-tag-history', tuple(hist)), reuse, sample=replay)
+
+
 def check(rep):
     import json
     rng = random.Random(common.seed() * 4201 + 14)
@@ -362,6 +432,8 @@ def check(rep):
     ]
     for _ in range(10 if not thorough else 100):
         seq_late_reply(rep, rng)
+        for _k in range(8):
+            seq_tag_history(rep, rng)
     jobs = []
     for path in sorted((common.CORPUS / 'C14').glob('*.json')):
         d = json.loads(path.read_text())
